@@ -323,6 +323,7 @@ pub fn run(ctx: Ctx) -> i32 {
                 if !failed.get() {
                     let mut l = cell.borrow_mut();
                     l.eval();
+                    l.eval(); // (two texts per module: plain and laid out)
                     if res.is_ok() {
                         let f = features(&m);
                         for x in &f {
